@@ -18,6 +18,14 @@ from ..provider.location import FieldLoc, TypeHintLoc
 from .provider_template import ConverterProvider
 
 
+class _NameRepr:
+    def __init__(self, name: str):
+        self._name = name
+
+    def __repr__(self):
+        return self._name
+
+
 class BuiltinConverterProvider(ConverterProvider):
     def __init__(self, *, name_sanitizer: NameSanitizer = BuiltinNameSanitizer()):
         self._name_sanitizer = name_sanitizer
@@ -96,8 +104,19 @@ class BuiltinConverterProvider(ConverterProvider):
         # so function is defined under reserved variable and gets its name as an attribute
         closure_var = self._register_mangled(namespace, "converter", None)
 
+        # Default values are taken from variables, repr of an arbitrary object is not the code creating it
         no_types_signature = signature.replace(
-            parameters=[param.replace(annotation=Signature.empty) for param in signature.parameters.values()],
+            parameters=[
+                param.replace(
+                    annotation=Signature.empty,
+                    default=(
+                        Signature.empty
+                        if param.default is Signature.empty else
+                        _NameRepr(self._register_mangled(namespace, f"default_{param.name}", param.default))
+                    ),
+                )
+                for param in signature.parameters.values()
+            ],
             return_annotation=Signature.empty,
         )
         parameters = tuple(signature.parameters.values())
